@@ -314,8 +314,11 @@ func (w *kqueue) remove(name string, unwatchFiles bool) error {
 		return fmt.Errorf("%w: %s", ErrNonExistentWatch, name)
 	}
 
+	// When closing, the reader may already have exited and closed the kqueue,
+	// in which case this fails; still close the descriptor (which also removes
+	// the kevent), or it's leaked.
 	err := w.register([]int{info.wd}, unix.EV_DELETE, 0)
-	if err != nil {
+	if err != nil && !w.isClosed() {
 		return err
 	}
 
